@@ -18,6 +18,7 @@ from .. import common as C
 from ..gen import vtext as V
 
 PID = "C12"
+KNOWN_SLASH = "lexer-slash-after-comment-newline"
 
 MANIFEST = {
     "category": "proof",
@@ -236,16 +237,31 @@ def judge_tokens(text, impl, lx):
     end = 0
     toks = []
     coms = []
+    trigger = None
+    prev_comment_end = -1
     for (kind, line, col, pos, length, eline, ecol, tx) in impl:
         if kind == "t" and length == 0 and tx == b"":
             if (line, col, pos) != (1, 1, 0):
                 bad.append(("start-token", "start token reports %d:%d pos %d" % (line, col, pos)))
             continue
         what = "comment" if kind == "c" else "token"
+        # trigger of the known lexer defect: a '/' token directly after the newline that ends a
+        # comment run (byte offsets are right even then; only line / column are off)
+        if kind == "t" and trigger is None and tx.startswith(b"/") and prev_comment_end == pos and pos > 0 and src[pos - 1:pos] == b"\n":
+            trigger = pos
         f = located_fail(S, line, col, pos, length, tx)
         if f:
-            bad.append(("%s-%s" % (what, f[0]), "%s: %s" % (what, f[1])))
+            if f[0] in ("line", "column") and trigger is not None and pos >= trigger:
+                bad.append((KNOWN_SLASH, "a '/' token directly after the newline that ends a comment run (offset %d) and every token after it "
+                            "report a line one too small: %s" % (trigger, f[1])))
+            else:
+                bad.append(("%s-%s" % (what, f[0]), "%s: %s" % (what, f[1])))
             break
+        if kind == "c":
+            prev_comment_end = pos + length
+            # the comment run extends over the white space after the comment
+            while prev_comment_end < len(src) and src[prev_comment_end:prev_comment_end + 1] in (b" ", b"\t", b"\r", b"\n"):
+                prev_comment_end += 1
         if pos < end:
             bad.append(("order", "%s %r at offset %d is reported after text ending at offset %d (not in source order)" % (what, tx[:30], pos, end)))
             break
